@@ -72,7 +72,7 @@ let render np (s : state) : string =
     let ld = match x.b_leader with Some q -> sn q | None -> "-" in
     let q = String.concat "," (List.sort compare (List.map sn x.b_queued)) in
     let t = String.concat "," (List.map (fun t -> Printf.sprintf "%s.%s.%d" (sn t.t_peer)
-              (match t.t_state with TLeader -> "L" | TNotLeader -> "N" | TErased -> "E") (in_ t.t_pos)) x.b_trans) in
+              (match t.t_state with TLeader -> "L" | TNotLeader -> "N" | TErased -> "E") (in_ t.t_pos)) (x.b_stale @ x.b_trans)) in
     let f = String.concat "," (List.map (fun e -> sn (snd e)) x.b_failed) in
     let c = match x.b_cur with Some c -> sn c | None -> "-" in
     Printf.sprintf "%s@%d|q=%s|t=%s|f=%s^%s" ld (in_ (leader_pos x)) q t f c in
@@ -149,7 +149,9 @@ let () = each_line (fun line ->
       let c0 = List.filter_map (fun i -> if have.[i] = '1' then Some (ni i) else None) (List.init np (fun i -> i)) in
       let expected i = let k = in_ i in if k < np then expected_tab.(k) else [] in
       let psize i = let k = in_ i in if k < np then ni (psz k) else N0 in
-      let acc = accept sha1_n expected (ni np) psize in
+      (* rep=1: the tree has the stale-transfer repair (decided by the harness probe, passed on by the glue) *)
+      let repaired = (try List.assoc "rep" kvs = "1" with Not_found -> false) in
+      let acc = accept sha1_n expected (ni np) psize repaired in
       let s = ref (init st0 c0) in
       let n = ref 0 and syn = ref 0 and lc = ref 0 and rc = ref 0 and snaps = ref 0 in
       let step tok e =
